@@ -27,6 +27,7 @@ func init() {
 			"the context handed to exec derives from context.WithTimeout(ctx, sc.timeout) under timeout>0 and process executors use exec.CommandContext on it (C05.timeout-ctx)",
 			"a running node is marked canceled by the stop whether or not its process exists (C05.cancel-mark); nobody replaces exec.Cmd.Cancel without a positive WaitDelay (C05.timeout-ctx)",
 			"cancel and exit handlers are selected (C04.handler-table shared)",
+			"where the command package subscribes to OS signals, the value it hands to the listener's Signal comes from a receive on that subscription (not a constant): the run is stopped with the signal the process received (C05.os-signal-forwarded)",
 		},
 		NotDec: []string{
 			"termination within the bound (liveness, wall clock); the instant-of-arrival quantifier",
@@ -54,6 +55,7 @@ func runC05(e *Env) {
 	// the stop path resolves the step's signalOnStop with unix.SignalNum: a name the
 	// loader accepted but that resolver maps to 0 is "delivered" as signal 0 - not at all
 	c05CancelFlagMonotone(e, "C05.cancel-flag-monotone")
+	c05OSSignalForwarded(e, "C05.os-signal-forwarded")
 	r.Rule("C05.signal-name-valid", "DCS", "a step's signalOnStop is stored only when the stop path's resolver accepts that very text", 1)
 	if cSignalNameValid(e, func(*ssa.Function) bool { return true }) == 0 {
 		r.Unknown("stores of Step.SignalOnStop", "-", "no computed store of Step.SignalOnStop found (loader not recognised)")
